@@ -99,7 +99,7 @@ PROPS = {
         "extra_imports": ["Gofasta.Lemmas.RegionEquiv", "Gofasta.Lemmas.GffRoundTrip", "Gofasta.Lemmas.GbRoundTrip"],
         "extra_theorems": ["Gofasta.Lemmas.RegionEquiv.genbank_region'", "Gofasta.Lemmas.RegionEquiv.genbank_region", "Gofasta.Lemmas.RegionEquiv.gff_region", "Gofasta.Lemmas.RegionEquiv.region_equiv", "Gofasta.Lemmas.RegionEquiv.fields_equiv", "Gofasta.Lemmas.RegionEquiv.oriented_of_asc", "Gofasta.Lemmas.RegionEquiv.faithful_long", "Gofasta.Lemmas.RegionEquiv.oriented_of_asc_faithful", "Gofasta.Lemmas.RegionEquiv.genbank_annotation", "Gofasta.Lemmas.RegionEquiv.gff_annotation", "Gofasta.Lemmas.RegionEquiv.annotation_equiv", "Gofasta.Lemmas.RegionEquiv.codes_perm", "Gofasta.Lemmas.RegionEquiv.variants_perm", "Gofasta.Lemmas.RegionEquiv.variants_equiv", "Gofasta.Lemmas.RegionEquiv.variants_equiv_asc", "Gofasta.Lemmas.RegionEquiv.both_succeed", "Gofasta.Lemmas.RegionEquiv.annotation_equal_of_sorted", "Gofasta.Lemmas.RegionEquiv.getAAsPair_congr", "Gofasta.Lemmas.RegionEquiv.aas_equiv_weak", "Gofasta.Lemmas.GffRT.parseFeature_renderRow", "Gofasta.Lemmas.GffRT.scanLines_render", "Gofasta.Lemmas.GffRT.gff_roundtrip", "Gofasta.Lemmas.GffRT.gff_roundtrip_canonical", "Gofasta.Lemmas.GffRT.toFeature_raw_iff", "Gofasta.Lemmas.GffRT.gff_roundtrip_exact", "Gofasta.Lemmas.GffRT.gff_roundtrip_escaped_differs", "Gofasta.Lemmas.GffRT.long_line_stops_reading", "Gofasta.Lemmas.GffRT.finding_escape_not_decoded", "Gofasta.Lemmas.GffRT.finding_hyphen_in_seqid", "Gofasta.Lemmas.GffRT.finding_fasta_contigs", "Gofasta.Lemmas.GffRT.sample_roundtrip", "Gofasta.Lemmas.GbRT.getPositions_render", "Gofasta.Lemmas.GbRT.parse_render", "Gofasta.Lemmas.GbRT.render_parse", "Gofasta.Lemmas.GbRT.getPositions_of_parse", "Gofasta.Lemmas.GbRT.unNest_fuel", "Gofasta.Lemmas.GbRT.atoi_forget", "Gofasta.Lemmas.GbRT.parseFeatures_render", "Gofasta.Lemmas.GbRT.gb_roundtrip"],
         "cli": True,
-        "streams": {"C14": (500, 8000), "C14gff": (600, 6000), "C14gb": (600, 6000)},
+        "streams": {"C14": (500, 8000), "C14gff": (600, 6000), "C14gb": (600, 6000), "C14gfffuzz": (0, 30), "C14gbfuzz": (0, 30)},
         "thorough_seeds": 3,
         "rule": "1-5 genes expressible in both formats (all five location shapes, 1-3 segments with lengths not multiples of 3, codon_start 1-3, conformant "
                 "non-zero continuation phases); a third of the cases run the GenBank form, a third the GFF form (both against model and spec), a third "
@@ -113,7 +113,7 @@ PROPS = {
                            "Gofasta.Lemmas.flatten_column", "Gofasta.Lemmas.seqFromBlock_starRow", "Gofasta.Lemmas.query_row",
                            "Gofasta.Lemmas.toMultiAlign_total",
                            "Gofasta.Lemmas.SamRT.sam_roundtrip", "Gofasta.Lemmas.SamRT.readSam_render", "Gofasta.Lemmas.SamRT.parseCigar_render", "Gofasta.Lemmas.SamRT.parseUint0_digitsOf", "Gofasta.Lemmas.SamRT.parseRecord_render", "Gofasta.Lemmas.SamRT.header_parse", "Gofasta.Lemmas.SamRT.readSam_unterminated", "Gofasta.Lemmas.SamRT.cigarIsValid_plain", "Gofasta.Lemmas.SamRT.cigarIsValid_clipped", "Gofasta.Lemmas.SamRT.toSamRec_expected"],
-        "streams": {"C01": (500, 10000), "C01sam": (600, 6000)},
+        "streams": {"C01": (500, 10000), "C01sam": (600, 6000), "C01samfuzz": (0, 30)},
         "thorough_seeds": 3,
         "rule": "reference 10-120 nt; 1-6 queries of 1-3 records (disjoint or overlapping; agreeing or conflicting templates); CIGARs from a grammar over all nine "
                 "operators with leading/trailing H and S, leading/trailing D, N skips, adjacent I/D, =/X, P; records aligning no base at all; unmapped (0x4), "
